@@ -39,7 +39,7 @@ TOut ==
     /\ l' = l + 1
     /\ cs' = [cs EXCEPT !.k = "used"]
     /\ UNCHANGED par
-    /\ IF par.k # "ok" \/ Ev.null = 1 \/ Ev.status # 3 \/ Ev.rows # 1
+    /\ IF par.k # "ok" \/ Ev.null = 1 \/ Ev.final # 1 \/ Ev.rows # 1
        THEN Report({"C07:run-failed"})
        ELSE LET alpha == IF par.biotype = 1 THEN A_DNA ELSE A_PROT23
                 ca == [k \in 1..Len(cs.a) |-> Code(alpha, cs.a[k])]
